@@ -1,0 +1,16 @@
+//go:build verif
+
+package modifier
+
+import "github.com/simimpact/srsim/pkg/key"
+
+// VerifCatalogKeys returns the keys of the modifier catalog (verification harness only).
+func VerifCatalogKeys() []key.Modifier {
+	mu.Lock()
+	defer mu.Unlock()
+	out := make([]key.Modifier, 0, len(modifierCatalog))
+	for k := range modifierCatalog {
+		out = append(out, k)
+	}
+	return out
+}
